@@ -20,5 +20,6 @@ def run(chk):
     from . import context_contracts
     context_contracts.wait_for_callback_order(chk, "C14")
     context_contracts.wait_for_callback_method(chk, "C14")
+    context_contracts.decorators(chk, "C14")   # a decorated submitter still receives (callback id, context) first
     from . import batcher
     batcher.check_consumer(chk, "C14")  # the callback id / invoke status read after START comes from the merged response: synchronous callers are released only after the merge
